@@ -68,12 +68,18 @@ CHECKS['C10'] = dict(
    design='4 (C10)')
 CHECKS['C12'] = dict(
    text='TLC model-checks SplitList (insert-only split-ordered list, unique and multi, 3 inserters incl. equal and adjacent keys: sorted, reachable, exactly one '
-        'winner per absent key, nothing lost). Histories of the eight real container types (insert/find/count and traversals concurrent with inserts; constant / '
-        'identity / colliding hashes, 2 initial buckets so the table doubles) under seeded random cooperative schedules are validated by TLC against SetAbs: '
-        'linearizable presence, one success per absent unique key, a traversal sees everything inserted before it began, nothing twice, nothing never inserted, '
-        'ordered containers in order, final contents = successful inserts.',
-   note='real-code schedules sampled, not enumerated; skip-list level assignment is whatever the library RNG produces (no seam); the multiplicity returned by count() on multi containers concurrently with inserts is not constrained (not in the property)',
-   technique='PlusCal protocol model checked by TLC + TLC validation of recorded real histories (incl. traversals) against SetAbs',
+        'winner per absent key, nothing lost) and SkipList (the lock-free insert and lower_bound of concurrent_skip_list at shared-access granularity: per-level '
+        'search from the loaded max height, level-0 CAS with full re-search, max-height CAS loop, upper-level CAS with re-search from the remembered predecessors; '
+        '2-3 inserters incl. equal keys and heights 1-3, a reader: every level always an acyclic sorted sub-list of level 0, one node per key, a key whose insert '
+        'returned is found by a search that began later, all levels complete at quiescence). Every edge of the SkipList state graph is replayed on the REAL '
+        'concurrent_skip_list (the container\'s own level-generator and allocator template parameters supply the model\'s heights and a tracked node pool), '
+        'one shared access per step, comparing the max height and the key sequence of every level after every step; the Inv/Res/Final histories of those replays '
+        'and of the eight real container types (insert/find/count and traversals concurrent with inserts; constant / identity / colliding hashes, 2 initial buckets '
+        'so the table doubles) under seeded random cooperative schedules are validated by TLC against SetAbs: linearizable presence, one success per absent unique '
+        'key, a traversal sees everything inserted before it began, nothing twice, nothing never inserted, ordered containers in order, final contents = successful inserts.',
+   note='the unordered containers\' schedules are sampled, not enumerated; the skip-list replay covers the unique-key insert and lower_bound paths (multimap index numbers and '
+        'unsafe_* operations are exercised only by the sampled histories); the multiplicity returned by count() on multi containers concurrently with inserts is not constrained (not in the property)',
+   technique='PlusCal protocol models checked by TLC, the SkipList graph replayed edge-complete on the real skip list with per-step state comparison, TLC validation of recorded real histories (incl. traversals) against SetAbs',
    design='4 (C12)')
 CHECKS['C13'] = dict(
    text='TLC model-checks Aggregator (pending-stack CAS push, first pusher becomes handler, handler_busy hand-over, two-pass batch handler): every operation '
